@@ -98,7 +98,7 @@ def projectors(ctx, N, rule):
             # ---- feature space
             rec = []
             I, st = ctx.interp(stubs=decomposition_stubs(rec), assume=protocols.assume_default), State()
-            o = ctx.bare_object(I, st, cls, {"mixing": mix, "tol": tol, "fit_svd_solver_": solver, "n_components_": integer("K")})
+            o = ctx.bare_object(I, st, cls, {"mixing": mix, "tol": tol, "fit_svd_solver_": solver, "n_components_": integer("K"), "n_samples_in_": integer("N"), "n_features_in_": integer("M")})
             ctx.call_method(I, st, o, "_fit_feature_space", X, Y, Yhat)
             site = ctx.site(P.method(cls, "_fit_feature_space"))
             cfg = f"feature {solver} {name}"
@@ -123,7 +123,7 @@ def projectors(ctx, N, rule):
             # ---- sample space
             rec = []
             I, st = ctx.interp(stubs=decomposition_stubs(rec), assume=protocols.assume_default), State()
-            o = ctx.bare_object(I, st, cls, {"mixing": mix, "tol": tol, "fit_svd_solver_": solver, "n_components_": integer("K")})
+            o = ctx.bare_object(I, st, cls, {"mixing": mix, "tol": tol, "fit_svd_solver_": solver, "n_components_": integer("K"), "n_samples_in_": integer("N"), "n_features_in_": integer("M")})
             ctx.call_method(I, st, o, "_fit_sample_space", X, Y, Yhat, W)
             site = ctx.site(P.method(cls, "_fit_sample_space"))
             cfg = f"sample {solver} {name}"
